@@ -299,20 +299,17 @@ func (r *WordRenderer) renderListItem(node *ast.ListItem) (ast.WalkStatus, error
 	// 简单的列表项处理，后续可以扩展为真正的列表格式
 	// 这里暂时使用缩进和符号来模拟列表
 	indent := strings.Repeat("  ", r.listLevel-1)
-	var para *document.Paragraph
+	para := r.doc.AddParagraph(indent + "• ")
+	hasText := false
 	for child := node.FirstChild(); child != nil; child = child.NextSibling() {
 		switch n := child.(type) {
 		case *ast.TextBlock, *ast.Paragraph:
-			if para == nil {
-				para = r.doc.AddParagraph(indent + "• ")
-			} else {
+			if hasText {
 				para.AddFormattedText(" ", nil)
 			}
 			r.renderInlineContent(n, para)
+			hasText = true
 		case *ast.List:
-			if para == nil {
-				para = r.doc.AddParagraph(indent + "• ")
-			}
 			r.renderList(n)
 		case *ast.FencedCodeBlock, *ast.CodeBlock:
 			r.renderCodeBlock(n)
@@ -320,15 +317,9 @@ func (r *WordRenderer) renderListItem(node *ast.ListItem) (ast.WalkStatus, error
 			r.renderBlockquote(n)
 		default:
 			if text := r.extractTextContent(child); text != "" {
-				if para == nil {
-					para = r.doc.AddParagraph(indent + "• ")
-				}
 				para.AddFormattedText(text, nil)
 			}
 		}
-	}
-	if para == nil {
-		r.doc.AddParagraph(indent + "• ")
 	}
 
 	return ast.WalkSkipChildren, nil
